@@ -11,6 +11,7 @@ A *case* is {'single': bool, 'ops': [op, ...]}.  Operations (all JSON):
   ['flush']                        VPK.write_dirfile()
   ['has', name]                    name in VPK
   ['check']                        observe: triples, filenames, read of every file, verify_all, files on disk
+  ['plant', hex]                   (harness only) put these raw bytes in place of the directory file; closes the handle
 name:  ['s', str] | ['p', dir, file] | ['t', dir, file, ext]     (strings as lists of code points)
 data:  ['g', seed, size]  (generated)  |  ['x', hexstring]
 """
@@ -67,14 +68,11 @@ def forge_suffix(prefix, target):
 
 
 def collide(data, seed=1):
-    """A payload different from `data` with the same CRC-32 (same length when len(data) >= 4)."""
-    n = max(len(data), 4)
-    pre = bytes(((b + seed + 1) & 255) for b in (data[:n - 4] if len(data) >= 4 else b''))
-    if len(pre) < n - 4:
-        pre = pre + bytes(n - 4 - len(pre))
+    """A payload different from `data` with the same CRC-32 (same length when len(data) >= 5)."""
+    n = len(data) if len(data) >= 5 else 8
+    pre = bytes(((data[k] if k < len(data) else 0) + seed) & 255 for k in range(n - 4))
     out = pre + forge_suffix(pre, zlib.crc32(data))
-    if out == data:
-        return collide(data, seed + 1)
+    assert out != data and zlib.crc32(out) == zlib.crc32(data)
     return out
 
 
@@ -228,6 +226,11 @@ class ImplWorld:
             return 'ok'
         if kind == 'check':
             return self.observe()
+        if kind == 'plant':
+            self.vpk = None
+            with open(self.path, 'wb') as f:
+                f.write(bytes.fromhex(op[1]))
+            return 'ok'
         v = self.vpk
         if v is None:
             return 'nohandle'
@@ -339,54 +342,136 @@ class Spec:
         raise AssertionError(op)
 
 
-def check_case_against_spec(case, stop_first=True):
-    """Run the case on the implementation next to the specification. Returns a list of
-    (key, what, op_index) for every point where the PROPERTY fails."""
+def _placement(w, hist):
+    if w.vpk is None:
+        return
+    for i in w.vpk:
+        if i.arch_len == 0:
+            k = 'preload-only' if i.start_data else 'empty'
+        elif i.arch_index is None:
+            k = 'single-file tail' if w.single else 'dir tail'
+        else:
+            k = 'numbered archive'
+        if i.start_data and i.arch_len:
+            k += '+preload'
+        hist[k] = hist.get(k, 0) + 1
+
+
+def run_case(case, oracle=True, capture=0, hist=None):
+    """ONE run of the case on the implementation.  Returns {'obs': per-op results (what the model
+    driver must reproduce), 'fails': [(key, what, op_index)] = points where the PROPERTY fails
+    (specification oracle), 'dirs': up to `capture` directory files written by flush}."""
     fails = []
-    spec = Spec()
+    obs_all = []
+    dirs = []
+    spec = Spec() if oracle and not any(op[0] == 'plant' for op in case['ops']) else None
+    ro_disk = None
     with ImplWorld(case['single']) as w:
         for n, op in enumerate(case['ops']):
-            want = spec.step(op, get_parts)
+            want = spec.step(op, get_parts) if spec else None
             if op[0] == 'check':
-                if spec.cur is None:
-                    continue
                 obs = w.observe(full=True)
-                if obs.get('nohandle'):
+                datas = obs.pop('_datas', None); disk = obs.pop('_disk', None)
+                obs_all.append(obs)
+                if hist is not None:
+                    _placement(w, hist)
+                if spec is None or spec.cur is None or obs.get('nohandle'):
                     continue
                 exp = sorted(spec.cur)
                 got = [tuple(st(x) for x in t) for t in obs['triples']]
                 if got != exp:
                     fails.append(('listing', f'files listed {got} but should be {exp}', n))
-                else:
-                    for t in exp:
-                        b = obs['_datas'][t]
-                        if isinstance(b, Exception):
-                            fails.append(('readback', f'read of {t} raised {type(b).__name__}: {b}', n))
-                        elif b != spec.cur[t]:
-                            fails.append(('readback', f'read of {t} returned {len(b)} bytes (crc {zlib.crc32(b):08x}), last written {len(spec.cur[t])} bytes (crc {zlib.crc32(spec.cur[t]):08x})', n))
-                    if obs['verify'] is not True and not any(f[2] == n for f in fails):
-                        fails.append(('verify', f'verify_all() = {obs["verify"]} although every file reads back what was written', n))
-                    if sorted(st(x) for x in obs['filenames']) != sorted(join_parts(*t) for t in exp):
-                        fails.append(('listing', f'filenames() = {sorted(st(x) for x in obs["filenames"])}', n))
-                    if obs['len'] != len(exp):
-                        fails.append(('listing', f'len() = {obs["len"]} with {len(exp)} files', n))
-            else:
-                got = w.step(op)
-                if op[0] == 'open' and want == {'struct', 'ok-empty'}:
-                    if got == 'ok':
-                        spec.cur = {}
-                        if len(w.vpk) != 0:
-                            fails.append(('listing', 'opening an empty file lists files', n))
-                    elif got not in ('struct',):
-                        fails.append(('error', f'open of an empty file: {got}', n))
-                elif want is not None and got not in want:
-                    fails.append(('error', f'operation {n} {op[:2]} gave {got!r}, specification says {sorted(want)}', n))
-                    # re-synchronise the specification with what the implementation did when possible
-                    if stop_first:
-                        break
-            if fails and stop_first:
-                break
-    return fails
+                    spec = None
+                    continue
+                for t in exp:
+                    b = datas[t]
+                    if isinstance(b, Exception):
+                        fails.append(('readback', f'read of {t} raised {type(b).__name__}: {b}', n))
+                    elif b != spec.cur[t]:
+                        fails.append(('readback', f'read of {t} returned {len(b)} bytes (crc {zlib.crc32(b):08x}), last written {len(spec.cur[t])} bytes (crc {zlib.crc32(spec.cur[t]):08x})', n))
+                if obs['verify'] is not True and not any(f[2] == n for f in fails):
+                    fails.append(('verify', f'verify_all() = {obs["verify"]} although every file reads back what was written', n))
+                if sorted(st(x) for x in obs['filenames']) != sorted(join_parts(*t) for t in exp):
+                    fails.append(('listing', f'filenames() = {sorted(st(x) for x in obs["filenames"])}', n))
+                if obs['len'] != len(exp):
+                    fails.append(('listing', f'len() = {obs["len"]} with {len(exp)} files', n))
+                if spec.mode == 'r':
+                    if ro_disk is not None and ro_disk != (disk['dir'], disk['arch']):
+                        fails.append(('readonly', 'files on disk changed while the archive was open read-only', n))
+                    ro_disk = (disk['dir'], disk['arch'])
+                continue
+            got = w.step(op)
+            obs_all.append(got)
+            if op[0] == 'open':
+                ro_disk = None
+            if op[0] == 'flush' and got == 'ok' and len(dirs) < capture:
+                with open(w.path, 'rb') as f:
+                    dirs.append(f.read())
+            if spec is None:
+                continue
+            if op[0] == 'open' and want == {'struct', 'ok-empty'}:
+                if got == 'ok':
+                    spec.cur = {}
+                elif got != 'struct':
+                    fails.append(('error', f'open of an empty file: {got}', n))
+                    spec = None
+            elif want is not None and got not in want:
+                fails.append(('error', f'operation {n} {op[0]} gave {got!r}, the specification says {sorted(want)}', n))
+                spec = None     # the histories diverge from here on
+    return {'obs': obs_all, 'fails': fails, 'dirs': dirs}
+
+
+def check_case_against_spec(case):
+    return run_case(case)['fails']
+
+
+def impl_decode(data):
+    """What the implementation makes of these bytes as a directory file: error code or listing
+    in the shape of the driver's `decode` reply."""
+    from srctools.vpk import VPK
+    d = tempfile.mkdtemp(prefix='c13d_')
+    try:
+        p = os.path.join(d, 'x_dir.vpk')
+        with open(p, 'wb') as f:
+            f.write(data)
+        try:
+            v = VPK(p, mode='r')
+        except Exception as e:
+            return {'err': err_code(e)}
+        return {'version': v.version,
+                'entries': [[cps(i.ext), cps(i.dir), cps(i._filename), i.crc, digest(i.start_data), i.arch_index,
+                             i.offset, i.arch_len] for i in v],
+                'footer': digest(v.footer_data)}
+    finally:
+        shutil.rmtree(d, ignore_errors=True)
+
+
+def mutants(rng, data, n):
+    """Damaged copies of a directory file (truncation, byte change, tree-length change, insert/delete)."""
+    out = []
+    for _ in range(n):
+        b = bytearray(data)
+        r = rng.random()
+        if r < 0.25 and len(b) > 0:
+            b = b[:rng.randrange(0, len(b))]
+        elif r < 0.55 and len(b) > 0:
+            i = rng.randrange(0, len(b))
+            b[i] = rng.choice([0, 0x20, 0xff, 0x7f, b[i] ^ 1, rng.randrange(256)])
+        elif r < 0.70 and len(b) >= 12:
+            tl = struct.unpack_from('<I', b, 8)[0]
+            struct.pack_into('<I', b, 8, max(0, tl + rng.choice([-2, -1, 1, 2, 5, -5])) & 0xffffffff)
+        elif r < 0.80 and len(b) > 0:
+            i = rng.randrange(0, len(b))
+            del b[i]
+        elif r < 0.90:
+            i = rng.randrange(0, len(b) + 1)
+            b[i:i] = bytes([rng.choice([0, 0x20, 0x41, 0xff])])
+        elif len(b) >= 12:
+            # version 2 header: 16 more bytes before the tree
+            struct.pack_into('<I', b, 4, 2)
+            b[12:12] = bytes(16)
+        out.append(bytes(b))
+    return out
 
 
 # ------------------------------------------------------------------ generators
@@ -407,6 +492,9 @@ BAD_NAMES = ['é', 'nĀ', '\ud800']   # rejected by new_file (not ASCII / surrog
 def in_class(d, n, e):
     """The class the generators stay in (see known findings): no NUL, no part spelled ' '."""
     return all('\0' not in x and x != ' ' for x in (d, n, e))
+
+
+CRC0 = collide(b'')
 
 
 def gen_triple(rng):
@@ -438,6 +526,8 @@ def gen_data(rng, big_ok=True):
         size = rng.choice([15, 17, 1025])
     if rng.random() < 0.15:
         size = rng.randrange(0, 2100)
+    if rng.random() < 0.02:
+        return ['x', CRC0.hex()]        # non-empty payload whose CRC-32 equals EMPTY_CHECKSUM
     return ['g', rng.randrange(0, 1000), size]
 
 
@@ -449,6 +539,7 @@ def gen_case(rng, max_ops=25, collide_p=0.04):
     ops = []
     nbig = 0
     last = {}          # triple -> last data spec (for CRC collisions)
+    flushed = False
     ops.append(['open', rng.choice('wwa'), rng.choice(LIMITS)])
     ops.append(['check'])
     nops = rng.randrange(3, max_ops + 1)
@@ -457,12 +548,12 @@ def gen_case(rng, max_ops=25, collide_p=0.04):
         trip = rng.choice(pool)
         name = gen_name(rng, trip)
         if r < 0.30:
-            d = gen_data(rng, nbig < 3); nbig += d[2] > 2000
+            d = gen_data(rng, nbig < 3); nbig += len(data_of(d)) > 2000
             ops.append(['add', name, d, rng.choice(INDEXES)]); last[trip] = d
         elif r < 0.50:
-            d = gen_data(rng, nbig < 3); nbig += d[2] > 2000
-            if trip in last and rng.random() < collide_p * 4:
-                d = ['x', collide(data_of(last[trip])).hex()] if last[trip][2 if last[trip][0] == 'g' else 1] is not None and len(data_of(last[trip])) < 5000 else d
+            d = gen_data(rng, nbig < 3); nbig += len(data_of(d)) > 2000
+            if trip in last and rng.random() < collide_p * 4 and len(data_of(last[trip])) < 5000:
+                d = ['x', collide(data_of(last[trip])).hex()]
             ops.append(['write', name, d, rng.choice(INDEXES)]); last[trip] = d
         elif r < 0.56:
             ops.append(['new', name]); last.setdefault(trip, ['g', 0, 0])
@@ -471,13 +562,13 @@ def gen_case(rng, max_ops=25, collide_p=0.04):
         elif r < 0.72:
             ops.append(['has', name])
         elif r < 0.80:
-            ops.append(['flush'])
+            ops.append(['flush']); flushed = True
         elif r < 0.84:
             ops.append(['check'])
         else:
             # reopen: usually flushed first (the property's history), sometimes not
-            if rng.random() < 0.85:
-                ops.append(['flush'])
+            if rng.random() < (0.85 if flushed else 0.97):
+                ops.append(['flush']); flushed = True
             mode = rng.choice('rraaw')
             ops.append(['open', mode, rng.choice(LIMITS)])
             ops.append(['check'])
